@@ -343,7 +343,7 @@ func (e *Engine) ensureWF(st *State, base types.Type, twoLevel bool) {
 		pats = append(pats, []*Term{ts[k]})
 	}
 	v, _ := Unflatten(base, ts)
-	inv := And(typeInvariant(base, v, nil)...)
+	inv := And(typeInvariant(base, v, st.alloc0)...) // objects referenced from the initial heaps existed at entry
 	if inv.IsTrue() {
 		return
 	}
